@@ -115,6 +115,8 @@ Produce(e) ==
             /\ UNCHANGED canon
        ELSE IF d \in DOMAIN canon THEN Req("C02", canon[d] = e.root) /\ UNCHANGED canon
             ELSE canon' = canon @@ (d :> e.root)
+  \* C05: compile-under-assignment returns the very diagram that compile + condition_model returns
+  /\ IF "cm_root" \in DOMAIN e THEN Req("C05", e.cm_root = e.root) ELSE TRUE
   \* C16: the twin builder (tiny lossy apply cache, same program) returned the same canonical diagram
   /\ IF "tev" \in DOMAIN e
        THEN Req(TwinProp, /\ e.tev = e.ev /\ e.ta = e.a /\ "troot" \in DOMAIN e
